@@ -91,10 +91,6 @@ def _assigned_names(stmts):
         for n in ast.walk(s):
             if isinstance(n, ast.Name) and isinstance(n.ctx, ast.Store):
                 out.add(n.id)
-            elif isinstance(n, ast.Attribute) and isinstance(n.ctx, ast.Store):
-                d = dotted_name(n)
-                if d:
-                    out.add(d)
     return out
 
 
@@ -163,6 +159,40 @@ class Explorer:
                     for k in [k for k in st.env if k.startswith(r + ".")]:
                         del st.env[k]
 
+    @staticmethod
+    def _fresh_list(v):
+        """The expression denotes a list created here (not an alias of stored state)."""
+        if isinstance(v, (ast.List, ast.ListComp)):
+            return True
+        if isinstance(v, ast.Call) and isinstance(v.func, ast.Attribute) and v.func.attr in ("split", "rsplit", "splitlines"):
+            return True
+        if isinstance(v, ast.Call) and isinstance(v.func, ast.Name) and v.func.id in ("list", "sorted"):
+            return True
+        if isinstance(v, ast.BinOp) and isinstance(v.op, ast.Add):
+            return Explorer._fresh_list(v.left) or Explorer._fresh_list(v.right)
+        if isinstance(v, ast.Subscript) and isinstance(v.slice, ast.Slice):
+            return Explorer._fresh_list(v.value)
+        return False
+
+    def _list_update(self, call, st):
+        """x.pop() / x.append(v) / x.extend(v) / x.insert(0, v) on a local that holds a list created in this function:
+        the local's value becomes the corresponding list expression (x[:-1], x + [v], x + v, [v] + x)."""
+        if not (isinstance(call, ast.Call) and isinstance(call.func, ast.Attribute) and isinstance(call.func.value, ast.Name)):
+            return
+        name, m = call.func.value.id, call.func.attr
+        cur = st.env.get(name)
+        if cur is None or not self._fresh_list(cur) or call.keywords:
+            return
+        args = [resolve(a, st) for a in call.args]
+        if m == "pop" and not args:
+            st.env[name] = ast.Subscript(value=cur, slice=ast.Slice(lower=None, upper=ast.UnaryOp(op=ast.USub(), operand=ast.Constant(value=1)), step=None), ctx=ast.Load())
+        elif m == "append" and len(args) == 1:
+            st.env[name] = ast.BinOp(left=cur, op=ast.Add(), right=ast.List(elts=[args[0]], ctx=ast.Load()))
+        elif m == "extend" and len(args) == 1:
+            st.env[name] = ast.BinOp(left=cur, op=ast.Add(), right=args[0])
+        elif m == "insert" and len(args) == 2 and isinstance(args[0], ast.Constant) and args[0].value == 0:
+            st.env[name] = ast.BinOp(left=ast.List(elts=[args[1]], ctx=ast.Load()), op=ast.Add(), right=cur)
+
     def stmt(self, s, st):
         if isinstance(s, ast.Assign):
             v = self._value(s.value, st, s)
@@ -182,6 +212,7 @@ class Explorer:
         if isinstance(s, ast.Expr):
             st.events.append(Event("expr", s, resolve(s.value, st), None))
             self._invalidate(s.value, st)
+            self._list_update(s.value, st)
             return [st]
         if isinstance(s, ast.Return):
             st.events.append(Event("return", s, resolve(s.value, st) if s.value is not None else None, None))
